@@ -65,3 +65,15 @@ def C04(t0):
         bounds=['operands symbolic (free abelian group / polynomial coordinates); iterator sums over 0..=3 summands (quick) / 0..=5 (thorough)'],
         trusted=[T_RUSTC, T_ARK + ": ark-ec's complete a=-1 twisted Edwards formulas for the inner points", 'the group law is an abelian group law (association/order independence)'],
         assumptions=['arkworks inner-point operations denote +, -, scalar action of the curve group'])
+
+def C17(t0):
+    from . import consts
+    _warm()
+    jobs = [(f'{b} field constants', consts.check_field_constants, (b,)) for b in ('ark', 'min')] + [(f'{b} curve constants', consts.check_curve_constants, (b,)) for b in ('ark', 'min')]
+    obs = par.run_groups(jobs)
+    return finish('C17', obs, t0, level='proof',
+        functions=['every pub const of fields/{fq,fr,fp}.rs, the wrapper constants (u32 and u64), the PrimeField/Field/FftField associated constants of fields/*/arkworks.rs',
+                   'ark_curve/constants.rs (incl. Lazy initialisers), ark_curve/edwards.rs (TE and Montgomery coefficients, generator, cofactor), min_curve/constants.rs, Element::{GENERATOR,IDENTITY}'],
+        bounds=['ground formulas: no input space, no bound'],
+        trusted=[T_RUSTC + ' (constant bodies are evaluated by the interpreter)', 'the three primes q, r, p of BLS12-377 and the small generators 22, 5, 15 are taken from the specification', 'r prime (for order statements)'],
+        assumptions=['arkworks MontFp!/BigInt conversions modelled by their documented meaning'])
